@@ -23,6 +23,8 @@ def kadj_case(i, date="2023-06-21", lat=45.0, lon=10.0):
     p = {"method": "None", "round": "None", "ext": ext_json(i["policy"], i.get("near_lat")),
          "angles": {"Fajr": float(i.get("angF") or 0.0), "Isha": float(i.get("angI") or 0.0)},
          "intervals": {"Fajr": intF, "Isha": intI}}
+    if i.get("mins"):
+        p["minutes"] = {k: float(v) for k, v in i["mins"].items() if v is not None}
     return {"api": "k_adj", "params": p, "hours": [h.get(k) for k in SIX], "lat": lat, "lon": lon, "elev": 0.0, "date": date, "gmt": 1.0}
 
 
